@@ -7,6 +7,36 @@ HERE = os.path.dirname(os.path.abspath(__file__))
 sys.path.insert(0, os.path.dirname(HERE))
 
 
+def replay(prop, path):
+    """Re-validates the recorded event of a replay file against the specification (one TLC step) and prints the
+    failing clauses; exit 1 if the recorded observation is (still) rejected, 0 if the specification accepts it."""
+    import json
+    from harness import tlc
+    d = json.load(open(path))
+    print("replay of %s: signature %s" % (path, json.dumps(d.get("signature"), sort_keys=True)))
+    ev = (d.get("case") or {}).get("event")
+    if not isinstance(ev, dict) or "kind" not in ev:
+        print("the recorded case carries no single event (it records an exception or a summary):")
+        print(json.dumps(d.get("case"), indent=1)[:3000])
+        return 2
+    ev.setdefault("id", 0)
+    try:
+        verdicts, st = tlc.validate_events("Trace_Pure", [ev], constants={"Seed": 0, "Cap": 64}, shards=1,
+                                           header=(d.get("case") or {}).get("hdr"))
+    except tlc.TLCError as ex:
+        print("ERROR %s machinery failure during replay: %s" % (prop, str(ex)[:500]))
+        return 2
+    if st["inconclusive"]:
+        print("ERROR %s the specification could not evaluate the event: %s" % (prop, st["inconclusive"][0]["error"][:500]))
+        return 2
+    fails = verdicts.get(ev["id"], [])
+    if fails:
+        print("VIOLATION property=%s replay=%s  rejected clauses: %s" % (prop, path, ", ".join(fails)))
+        return 1
+    print("PASS %s replay: the specification accepts the recorded event" % prop)
+    return 0
+
+
 def main():
     ap = argparse.ArgumentParser()
     ap.add_argument("prop")
@@ -20,6 +50,8 @@ def main():
         os.environ["VERIF_SEED"] = str(a.seed)
     if a.replay:
         os.environ["VERIF_REPLAY"] = a.replay
+    if a.replay:
+        sys.exit(replay(a.prop, a.replay))
     try:
         mod = importlib.import_module("harness.drivers." + a.prop.lower())
         rc = mod.main()
